@@ -671,8 +671,12 @@ class ReshapeFam(Family):
                 i = rng.randrange(len(s2))
                 if az == 0 and i < len(mid) and mid[i] == s2[i]:
                     s2[i] = 0
+            true_out = self.py_reshape(mid, s2, az)
+            if true_out is None:          # the original second Reshape would be invalid: not a host
+                s2, true_out = list(tgt), self.py_reshape(mid, tgt, 1)
+                az = 1
             return {"fam": "reshape", "kind": "rr", "x": x, "mid": mid, "s2": s2, "az": az, "s2const": rng.random() > 0.07,
-                    "out": rng.choice(["none", "spec", "sym"]), "tgt": tgt, "extra": rng.random() < 0.06}
+                    "out": rng.choice(["none", "spec", "sym"]), "tgt": true_out, "extra": rng.random() < 0.06}
         if k == "expand":
             x = self.gen_shape(rng, 1, 3, zero=0.05, sym=0.15)
             run = bind(x)
@@ -688,6 +692,29 @@ class ReshapeFam(Family):
         out = self.gen_shape(rng, 1, 3, zero=0.12, sym=0.3)
         return {"fam": "reshape", "kind": "mat", "out": out if rng.random() > 0.07 else None, "run": bind(out, rng.choice([1, 2, 3])),
                 "const": rng.random() < 0.1}
+
+    @staticmethod
+    def py_reshape(in_shape, target, allowzero):
+        """ONNX Reshape target resolution (the truthful output annotation of a host); None = invalid."""
+        t = list(target)
+        if t.count(-1) > 1 or any(v < -1 for v in t):
+            return None
+        if allowzero and 0 in t and -1 in t:
+            return None
+        for i, v in enumerate(t):
+            if v == 0 and not allowzero:
+                if i >= len(in_shape):
+                    return None
+                t[i] = in_shape[i]
+        total = int(np.prod(in_shape)) if in_shape else 1
+        known = int(np.prod([v for v in t if v != -1])) if [v for v in t if v != -1] else 1
+        if -1 in t:
+            if known == 0 or total % known:
+                return None
+            t[t.index(-1)] = total // known
+        elif known != total:
+            return None
+        return t
 
     @staticmethod
     def factor(rng, total):
@@ -760,11 +787,15 @@ class ReshapeFam(Family):
         return hst, [C.materialize_reshape_shape_rule]
 
     def rr_out(self, c):
+        """the *truthful* annotation of the second Reshape's output (recomputed from the case, never trusted)."""
         if c["out"] == "none":
             return None
+        tgt = self.py_reshape(c["mid"], c["s2"], c["az"])
+        if tgt is None:
+            return None
         if c["out"] == "spec":
-            return list(c["tgt"])
-        return ["N"] + list(c["tgt"][1:])
+            return list(tgt)
+        return ["N"] + list(tgt[1:])
 
     def infer(self, c):
         return False     # annotations are exactly what the case declares
